@@ -4,7 +4,8 @@ package llrp
 
 // C08 — timed scenarios (TestVerifC08Timed): a client built WithTimeout and a reader that sends the success event and then
 // NEVER ANSWERS one of the negotiation messages — with or without KeepAlives in between, which keep the client's read deadline
-// alive so that only the negotiation's own deadline can end the wait. Setup must FAIL: Connect returns an error, the gate does
+// alive so that only the negotiation's own deadline can end the wait — or that STALLS: sends nothing, or only the first k bytes of
+// its first message / of a negotiation reply, and then goes quiet without hanging up. Setup must FAIL: Connect returns an error, the gate does
 // not open onto a live client, callers started before Connect / before the first message / during negotiation fail, and the
 // peer sees nothing but negotiation frames and KeepAliveAcks. The script runner cannot do this (it steps on quiescence and has
 // no notion of time), so this is a small runner of its own; it uses the script runner's independent frame code.
@@ -27,6 +28,10 @@ type c08TimedReq struct {
 	KeepAlive bool     `json:"keepalive"`
 	Early     []string `json:"early"` // pre (before Connect) | gate (after the first message) | neg (after the peer read GetSupportedVersion)
 	BudgetMs  int      `json:"budget_ms"`
+	// stalls: the peer sends only the first first_cut bytes of its first message (0 = nothing at all) / only the first reply_cut
+	// bytes of the reply named by silent_on, then goes quiet WITHOUT hanging up
+	FirstCut *int `json:"first_cut"`
+	ReplyCut *int `json:"reply_cut"`
 }
 
 type c08Frame struct {
@@ -113,8 +118,33 @@ func c08TimedRun(rq c08TimedReq) vsObs {
 	stop := make(chan struct{})
 	var pwg sync.WaitGroup
 	b := (&vsPl{K: "conn"}).bytes()
-	if err := write(int(MsgReaderEventNotification), 0, b); err != nil {
+	if rq.FirstCut != nil {
+		fr := vsBuildFrame(2, int(MsgReaderEventNotification), 0, uint32(10+len(b)), b)
+		k := *rq.FirstCut
+		if k > len(fr) {
+			k = len(fr)
+		}
+		if k > 0 {
+			_ = peer.SetWriteDeadline(time.Now().Add(T))
+			if _, err := peer.Write(fr[:k]); err != nil {
+				out["error"] = "first bytes: " + err.Error()
+			}
+		}
+	} else if err := write(int(MsgReaderEventNotification), 0, b); err != nil {
 		out["error"] = "first frame: " + err.Error()
+	}
+	partial := func(typ int, id uint32, pl []byte) {
+		fr := vsBuildFrame(2, typ, id, uint32(10+len(pl)), pl)
+		k := *rq.ReplyCut
+		if k > len(fr) {
+			k = len(fr)
+		}
+		if k > 0 {
+			wmu.Lock()
+			_ = peer.SetWriteDeadline(time.Now().Add(T))
+			_, _ = peer.Write(fr[:k])
+			wmu.Unlock()
+		}
 	}
 	pwg.Add(1)
 	go func() {
@@ -145,10 +175,14 @@ func c08TimedRun(rq c08TimedReq) vsObs {
 				}
 				if rq.SilentOn != "gsv" {
 					_ = write(int(MsgGetSupportedVersionResponse), h.ID, (&vsPl{K: "gsvr", Cur: 1, Max: 2}).bytes())
+				} else if rq.ReplyCut != nil {
+					partial(int(MsgGetSupportedVersionResponse), h.ID, (&vsPl{K: "gsvr", Cur: 1, Max: 2}).bytes())
 				}
 			case int(MsgSetProtocolVersion):
 				if rq.SilentOn != "spv" {
 					_ = write(int(MsgSetProtocolVersionResponse), h.ID, vsStatusTLV(0))
+				} else if rq.ReplyCut != nil {
+					partial(int(MsgSetProtocolVersionResponse), h.ID, vsStatusTLV(0))
 				}
 			case int(MsgKeepAliveAck):
 			default: // a caller's request: answer it (so that a wrongly released SendMessage shows up as "ok")
